@@ -15,6 +15,71 @@ import (
 type TextCase struct {
 	Toks  []string `json:"toks"`
 	Style int      `json:"style"` // 0 no spaces, 1 single spaces, 2 newline+tab
+	// long texts are described, not stored: Gen names the shape, Op the operator, K the number of operands / the depth
+	Gen string `json:"gen,omitempty"`
+	Op  string `json:"op,omitempty"`
+	K   int    `json:"k,omitempty"`
+}
+
+// longToks builds the token list of a long text: operands cycle over a, b, c (every third one negated).
+func longToks(gen, op string, k int) []string {
+	operand := func(i int) []string {
+		x := []string{string(rune('a' + i%3))}
+		if i%3 == 2 && i%2 == 0 {
+			x = []string{"^", x[0]}
+		}
+		return x
+	}
+	var t []string
+	switch gen {
+	case "chain": // x0 op x1 op ... op x(k-1), flat
+		for i := 0; i < k; i++ {
+			if i > 0 {
+				t = append(t, op)
+			}
+			t = append(t, operand(i)...)
+		}
+	case "chain-in-parens": // ( flat chain ) & a
+		t = append(t, "(")
+		t = append(t, longToks("chain", op, k)...)
+		t = append(t, ")", "&", "a")
+	case "right-nest": // x0 op ( x1 op ( x2 ... ) )
+		for i := 0; i < k-1; i++ {
+			t = append(t, operand(i)...)
+			t = append(t, op, "(")
+		}
+		t = append(t, operand(k-1)...)
+		for i := 0; i < k-1; i++ {
+			t = append(t, ")")
+		}
+	case "left-nest": // ( ( x0 op x1 ) op x2 ) ...
+		for i := 0; i < k-1; i++ {
+			t = append(t, "(")
+		}
+		t = append(t, operand(0)...)
+		for i := 1; i < k; i++ {
+			t = append(t, op)
+			t = append(t, operand(i)...)
+			t = append(t, ")")
+		}
+	case "parens": // k pairs of parentheses around a op b
+		for i := 0; i < k; i++ {
+			t = append(t, "(")
+		}
+		t = append(t, "a", op, "b")
+		for i := 0; i < k; i++ {
+			t = append(t, ")")
+		}
+	case "nots": // k negations
+		for i := 0; i < k; i++ {
+			t = append(t, "^")
+		}
+		t = append(t, "a", op, "b")
+	case "unbalanced": // one closing parenthesis missing at the very end of a deep nest
+		t = longToks("parens", op, k)
+		t = t[:len(t)-1]
+	}
+	return t
 }
 
 func (c TextCase) Text() string {
@@ -264,7 +329,7 @@ type c17 struct{}
 func (c17) ID() string    { return "C17" }
 func (c17) Level() string { return "exploration" }
 func (c17) Rule() string {
-	return "cases = (1) every syntax tree with <=4 leaves (leaves a,b,c,a in order, brace groups of 1..3 names, or identifiers with a leading underscore, digits, upper case) over the binary operators ; = -> | & with at most one negation inserted at any node (two for <=3 leaves), rendered with the required parentheses plus every set of <=2 redundant parenthesis pairs (every set for <=3 leaves) in three spacing styles (none, single space, newline+tab); (2) every token string of length <=6 (8 thorough) over {a,b,^,&,|,->,=,;,(,)}; (3) corruptions of the renderings of (1): delete any one token, insert '(' or ')' or an identifier or ';' at any position. Each text is judged by a reference recogniser of the grammar documented in bf/doc.go with the documented priorities and right-nested repetition: in the language => Parse succeeds and the formula's truth table (Formula.Eval) equals that of the reference reading; not in the language => error and nil formula; never a panic. A single trailing ';' is tolerated either way (the statement does not forbid it). Non-trivial = the text has at least two operators."
+	return "cases = (1) every syntax tree with <=4 leaves (leaves a,b,c,a in order, brace groups of 1..3 names, or identifiers with a leading underscore, digits, upper case) over the binary operators ; = -> | & with at most one negation inserted at any node (two for <=3 leaves), rendered with the required parentheses plus every set of <=2 redundant parenthesis pairs (every set for <=3 leaves) in three spacing styles (none, single space, newline+tab); (2) every token string of length <=6 (8 thorough) over {a,b,^,&,|,->,=,;,(,)}; (3) corruptions of the renderings of (1): delete any one token, insert '(' or ')' or an identifier or ';' at any position. Each text is judged by a reference recogniser of the grammar documented in bf/doc.go with the documented priorities and right-nested repetition: in the language => Parse succeeds and the formula's truth table (Formula.Eval) equals that of the reference reading; not in the language => error and nil formula; never a panic. A single trailing ';' is tolerated either way (the statement does not forbid it). (4) long texts: for every operator and k in {64, 1100, 4100} (thorough: up to 20000) a flat chain of k operands, the same chain inside parentheses, the explicit right nest and left nest of k operands, k redundant parenthesis pairs, k negations, and a k-deep nest with its last ')' missing, in the three spacing styles. Non-trivial = the text has at least two operators."
 }
 func (c17) Assumptions() []string {
 	return []string{"the reference recogniser implements the grammar of bf/doc.go extended with brace groups as described in the Parse documentation", "identifiers are single lower-case letters; brace groups have at most 3 names (no auxiliary variables, so Formula.Eval is defined)"}
@@ -381,6 +446,31 @@ func (c17) Enumerate(tier string, seed int64, yield func(string, core.Case) bool
 			return
 		}
 	}
+	// (4) long texts: flat chains of one operator, explicit right and left nests, deep parentheses, runs of negations
+	longK := []int{64, 1100, 4100}
+	if thorough {
+		longK = []int{64, 300, 1100, 4100, 20000}
+	}
+	for _, k := range longK {
+		for _, op := range ops {
+			for _, gen := range []string{"chain", "chain-in-parens", "right-nest", "left-nest", "parens", "nots", "unbalanced"} {
+				kk := k
+				if op == "=" && gen != "parens" && gen != "nots" && gen != "unbalanced" {
+					// bf.Eq(f, g) holds f and g twice, so evaluating a nest of k equivalences (Formula.Eval, the
+					// oracle's only access to the parsed formula) takes 2^k steps: one moderate depth only
+					if k != longK[0] {
+						continue
+					}
+					kk = 14
+				}
+				for st := 0; st < 3; st++ {
+					if !yield("long/"+gen, TextCase{Gen: gen, Op: op, K: kk, Style: st}) {
+						return
+					}
+				}
+			}
+		}
+	}
 	// (3) corruptions
 	ins := []string{"(", ")", "a", ";", "^", "}", "{", ","}
 	for _, toks := range corpus {
@@ -422,9 +512,22 @@ func evalParsed(f bf.Formula, names []string) (table []bool, panicked string) {
 func (c17) Exec(cc core.Case, r *core.Rec) []core.Failure {
 	c := cc.(TextCase)
 	r.Execution()
+	if c.Gen != "" {
+		c.Toks = longToks(c.Gen, c.Op, c.K)
+		r.Count("long_texts", 1)
+	}
 	text := c.Text()
 	var fs []core.Failure
-	add := func(kind, detail string) { fs = append(fs, core.Failure{Sig: "bf.Parse/" + kind, Detail: detail}) }
+	add := func(kind, detail string) {
+		if c.Gen != "" {
+			kind += "/long-" + c.Gen
+			if len(detail) > 600 {
+				detail = detail[:300] + " ... " + detail[len(detail)-200:]
+			}
+			detail = fmt.Sprintf("text shape %s, operator %q, k=%d, spacing style %d: %s", c.Gen, c.Op, c.K, c.Style, detail)
+		}
+		fs = append(fs, core.Failure{Sig: "bf.Parse/" + kind, Detail: detail})
+	}
 	ref, inLang := refParse(c.Toks)
 	trailing := false
 	if !inLang && len(c.Toks) >= 2 && c.Toks[len(c.Toks)-1] == ";" {
@@ -484,7 +587,9 @@ func (c17) Exec(cc core.Case, r *core.Rec) []core.Failure {
 			return fs
 		}
 	}
-	r.Sample("text", 4, text)
+	if c.Gen == "" {
+		r.Sample("text", 4, text)
+	}
 	return fs
 }
 
